@@ -107,6 +107,7 @@ type gxNode struct {
 	units          string
 	config         string // "", "true", "false" as written (or deviated)
 	mandatory      string
+	mandWritten    string // mandatory as the leaf statement has it (a deviation does not change which leaves inherit a type default)
 	min, max       string
 	kids           []*gxNode
 	parent         *gxNode
@@ -122,7 +123,7 @@ func (x *gxNode) defaults() []string {
 	if x.typeDef == "" {
 		return nil
 	}
-	if x.kind == "leaf" && x.mandatory != "true" {
+	if x.kind == "leaf" && x.mandWritten != "true" {
 		return []string{x.typeDef}
 	}
 	if x.kind == "leaf-list" && (x.min == "" || x.min == "0") {
@@ -289,7 +290,7 @@ func (ex *gxExpander) expandInto(parent *gxNode, stmts []*gsStmt, sc gxScope, ns
 				case "config":
 					n.config = k.arg
 				case "mandatory":
-					n.mandatory = k.arg
+					n.mandatory, n.mandWritten = k.arg, k.arg
 				case "min-elements":
 					n.min = k.arg
 				case "max-elements":
@@ -622,6 +623,31 @@ type gxGrouping struct {
 	depth int
 }
 
+// impPrefixes: the import prefixes of m in a fixed order (map iteration would
+// make the generated schema depend on more than the seed).
+func impPrefixes(m *gsMod) []string {
+	var pf []string
+	for p := range m.imports {
+		pf = append(pf, p)
+	}
+	sort.Strings(pf)
+	return pf
+}
+
+// rootList: the expected trees in a fixed order.
+func (ex *gxExpander) rootList() []*gxNode {
+	var names []string
+	for n := range ex.roots {
+		names = append(names, n)
+	}
+	sort.Strings(names)
+	var out []*gxNode
+	for _, n := range names {
+		out = append(out, ex.roots[n])
+	}
+	return out
+}
+
 func (g *gxGen) pick(s []string) string { return s[g.rng.Intn(len(s))] }
 
 func (g *gxGen) fresh(p string) string { g.id++; return fmt.Sprintf("%s%d", p, g.id) }
@@ -671,7 +697,7 @@ func (g *gxGen) typeRef(m *gsMod) string {
 	case 0:
 		return g.pick([]string{"string", "int32", "uint8", "boolean"})
 	case 1:
-		for p := range m.imports {
+		for _, p := range impPrefixes(m) {
 			return p + ":t"
 		}
 		if m.belongs != nil {
@@ -706,6 +732,8 @@ func (g *gxGen) dataNodes(m *gsMod, tag string, depth int) []*gsStmt {
 			}
 			if g.rng.Intn(5) == 0 {
 				lf.add(gs("mandatory", "true"))
+			} else if g.rng.Intn(4) == 0 {
+				lf.add(gs("default", "5"))
 			}
 			out = append(out, lf)
 		case 2:
@@ -769,8 +797,8 @@ func (g *gxGen) visible(gr *gxGrouping, m *gsMod, chain []*gsStmt) string {
 		}
 		return ""
 	}
-	for p, im := range m.imports {
-		if im == gr.mod.owner() {
+	for _, p := range impPrefixes(m) {
+		if m.imports[p] == gr.mod.owner() {
 			return p + ":" + gr.stmt.arg
 		}
 	}
@@ -913,8 +941,8 @@ func (g *gxGen) pathFrom(m *gsMod, x *gxNode) string {
 	if root.name == m.owner().name {
 		pfx = m.prefix
 	} else {
-		for p, im := range m.imports {
-			if im.name == root.name {
+		for _, p := range impPrefixes(m) {
+			if m.imports[p].name == root.name {
 				pfx = p
 			}
 		}
@@ -975,8 +1003,8 @@ func (g *gxGen) prefixFor(m *gsMod, name string) string {
 	if m.owner().name == name {
 		return m.prefix
 	}
-	for p, im := range m.imports {
-		if im.name == name {
+	for _, p := range impPrefixes(m) {
+		if m.imports[p].name == name {
 			return p
 		}
 	}
@@ -1008,4 +1036,119 @@ func (g *gxGen) model() *gxExpander {
 	ex.expandAll()
 	ex.applyAugments()
 	return ex
+}
+
+// ---------------------------------------------------------------------------
+// deviations (RFC 7950 7.20.3), applied to the expected tree in written order
+
+func (ex *gxExpander) applyDeviations(ignoreNotSupported bool) {
+	for _, m := range ex.mods {
+		for _, dv := range m.stmt.kids {
+			if dv.kw != "deviation" {
+				continue
+			}
+			t := ex.lookup(m, dv.arg)
+			if t == nil || t.parent == nil {
+				ex.errs = append(ex.errs, "deviation target not found: "+dv.arg)
+				continue
+			}
+			isListy := t.kind == "list" || t.kind == "leaf-list"
+			for _, d := range dv.kids {
+				if d.kw != "deviate" {
+					continue
+				}
+				switch d.arg {
+				case "not-supported":
+					if !ignoreNotSupported {
+						p := t.parent
+						for i, k := range p.kids {
+							if k == t {
+								p.kids = append(p.kids[:i:i], p.kids[i+1:]...)
+								break
+							}
+						}
+					}
+				case "add", "replace":
+					var defs []string
+					for _, k := range d.kids {
+						switch k.kw {
+						case "config":
+							t.config = k.arg
+						case "mandatory":
+							t.mandatory = k.arg
+						case "units":
+							t.units = k.arg
+						case "default":
+							defs = append(defs, k.arg)
+						case "min-elements", "max-elements":
+							if !isListy {
+								ex.errs = append(ex.errs, k.kw+" on a node that is neither list nor leaf-list: "+dv.arg)
+							} else if k.kw == "min-elements" {
+								t.min = k.arg
+							} else {
+								t.max = k.arg
+							}
+						case "type":
+							kind, td, _ := ex.resolveType(gxScope{m, []*gsStmt{m.stmt, dv, d}}, k.arg, 0)
+							t.typ, t.typeDef = kind, td
+						}
+					}
+					if len(defs) > 0 {
+						switch {
+						case d.arg == "replace":
+							t.def = defs
+						case t.kind == "leaf-list":
+							t.def = append(append([]string{}, t.def...), defs...)
+						case len(defs) > 1:
+							ex.errs = append(ex.errs, "more than one default added to a leaf: "+dv.arg)
+						case len(t.def) != 0:
+							ex.errs = append(ex.errs, "default added where one exists: "+dv.arg)
+						default:
+							t.def = defs
+						}
+					}
+				case "delete":
+					for _, k := range d.kids {
+						switch k.kw {
+						case "config":
+							t.config = ""
+						case "mandatory":
+							t.mandatory = ""
+						case "default":
+							switch {
+							case t.kind == "leaf-list":
+								ex.errs = append(ex.errs, "delete of a leaf-list default: "+dv.arg)
+							case len(t.def) == 0:
+								ex.errs = append(ex.errs, "delete of a default that does not exist: "+dv.arg)
+							case t.def[0] != k.arg:
+								ex.errs = append(ex.errs, "delete of a default with another value: "+dv.arg)
+							default:
+								t.def = nil
+							}
+						case "min-elements", "max-elements":
+							cur, unset := t.min, "0"
+							if k.kw == "max-elements" {
+								cur, unset = t.max, "unbounded"
+							}
+							if cur == "" {
+								cur = unset
+							}
+							switch {
+							case !isListy:
+								ex.errs = append(ex.errs, k.kw+" on a node that is neither list nor leaf-list: "+dv.arg)
+							case cur != k.arg:
+								ex.errs = append(ex.errs, "delete of "+k.kw+" with another value: "+dv.arg)
+							case k.kw == "min-elements":
+								t.min = ""
+							default:
+								t.max = ""
+							}
+						}
+					}
+				default:
+					ex.errs = append(ex.errs, "unknown deviate kind "+d.arg)
+				}
+			}
+		}
+	}
 }
